@@ -15,6 +15,8 @@
 
 mod barriers;
 pub use barriers::BarrierSelector;
+#[cfg(mmtk_verif)]
+pub use barriers::{BarrierSemantics, ObjectBarrier};
 
 mod gc_work;
 
